@@ -74,7 +74,7 @@ NumOK(a, fa, b, fb, ood) ==
     IF ood = 1 THEN TRUE
     ELSE IF fa >= fb THEN (IF NDigits(b) + (fa - fb) > 9 THEN TRUE ELSE a = b * Pow10(fa - fb))
     ELSE (IF NDigits(a) + (fb - fa) > 9 THEN TRUE
-          ELSE 2 * Abs(b - a * Pow10(fb - fa)) <= Pow10(fb - fa))
+          ELSE Abs(b - a * Pow10(fb - fa)) <= Pow10(fb - fa) \div 2)      \* (no doubling: 32-bit integers)
 TokMatch(t, tk, p) ==
     /\ tk.c = p.c
     /\ NumOK(tk.num, tk.f, p.num, p.sc, IF tk.big = 1 THEN 1 ELSE p.ood)
